@@ -367,7 +367,8 @@ def solve_request(spec, rec):
             recs.append("((pre (%s)) (y %s) (post (%s)) (xi %s))" % (" ".join(fl(z) for z, _ in pts[:idx]), fl(xn),
                                                                     " ".join(fl(z) for z, _ in pts[idx + 1:]), fl(xin)))
         record = not (spec.get("limits") is not None and spec["limits"][0] == 0)
-        line = head + " (x0 %s) (record %s) (ls (%s))" % (fl(spec["x0"]), "true" if record else "false", " ".join(recs))
+        # from the initial guess alone: the line searches are the Lean model of bracket/brent (tol = xtol*100, maxiter = imax)
+        line = head + " (x0 %s) (record %s) (brent true) (tol %s) (imax %d)" % (fl(spec["x0"]), "true" if record else "false", f2b(1e-4 * 100), 500)
     elif solver == "NM":
         if spec["dim"] > 15:
             return None, None
